@@ -401,7 +401,46 @@ impl Prop for C04 {
 		Ok(())
 	}
 
-	fn enumerate(_tier: Tier, shard: usize, nshards: usize, f: &mut dyn FnMut(Case, bool) -> bool) -> Vec<&'static str> {
+	fn enumerate(tier: Tier, shard: usize, nshards: usize, f: &mut dyn FnMut(Case, bool) -> bool) -> Vec<&'static str> {
+		// huge arguments and huge buffers (>= 1 MiB), each followed ON THE SAME THREAD by a small case of the
+		// same kind (scratch space reused between calls must not leak from one value into the next)
+		{
+			let mut groups: Vec<Vec<Case>> = vec![];
+			for (k, n) in gen::huge_sizes(tier).into_iter().enumerate() {
+				let x = "A".repeat(n);
+				let fam = if k % 2 == 0 { Fam::Iri } else { Fam::Uri };
+				let parsed = |full: bool, text: String, ops: Vec<Op>| Case { fam, init: Init::Parsed { full, text }, ops };
+				let small_norm = parsed(false, "x/./y/../z".into(), vec![Op::Path(vec![POp::Normalize])]);
+				groups.push(vec![parsed(true, format!("s:1:{x}/."), vec![Op::Path(vec![POp::Normalize])]), small_norm.clone(), parsed(true, "s:/a/./b".into(), vec![Op::Path(vec![POp::Normalize]), Op::Resolve("s:/c/d".into())])]);
+				groups.push(vec![parsed(false, format!("{x}/../{x}/./b"), vec![Op::Path(vec![POp::Normalize]), Op::Resolve(format!("s://h/{x}/c"))]), small_norm.clone()]);
+				groups.push(vec![
+					parsed(true, "s://u@h:1/p?q#f".into(), vec![Op::Set(SetOp::Path(format!("/{x}"))), Op::Set(SetOp::Path("/p".into())), Op::Set(SetOp::Query(Some(x.clone()))), Op::Set(SetOp::Fragment(Some(x.clone()))), Op::Set(SetOp::Query(Some("r".into())))]),
+					parsed(true, "s://u@h:1/p?q#f".into(), vec![Op::Set(SetOp::Query(Some("rr".into()))), Op::Set(SetOp::Path("/pp".into()))]),
+				]);
+				groups.push(vec![
+					parsed(false, "//h/p?q#f".into(), vec![Op::Set(SetOp::Fragment(Some(x.clone()))), Op::Set(SetOp::Authority(Some(x.clone()))), Op::Set(SetOp::Query(Some(x.clone()))), Op::Set(SetOp::Authority(None)), Op::Set(SetOp::Scheme(Some("x".into())))]),
+					parsed(false, format!("//h/{x}?{x}#{x}"), vec![Op::Set(SetOp::Path("/p".into())), Op::Set(SetOp::Query(None)), Op::Set(SetOp::Path(format!("/{x}/{x}"))), Op::Set(SetOp::Fragment(None))]),
+				]);
+				groups.push(vec![
+					parsed(false, "//h/./".into(), vec![Op::Path(vec![POp::Push(x.clone())]), Op::Path(vec![POp::Pop, POp::SymPush(x.clone()), POp::SymPush("..".into()), POp::Push(format!("1:{x}"))])]),
+					parsed(false, "a/b".into(), vec![Op::Path(vec![POp::Push(x.clone()), POp::Pop, POp::Push("c".into())])]),
+				]);
+				groups.push(vec![
+					parsed(true, "s://u@h:1/p".into(), vec![Op::Auth(vec![AOp::SetHost(x.clone()), AOp::SetUserinfo(Some(x.clone()))]), Op::Auth(vec![AOp::SetPort(Some("1".repeat(n))), AOp::SetHost("g".into()), AOp::SetUserinfo(None), AOp::SetPort(None)])]),
+					parsed(true, "s://u@h:1/p".into(), vec![Op::Auth(vec![AOp::SetHost("gg".into()), AOp::SetUserinfo(Some("vv".into()))])]),
+				]);
+			}
+			for (gi, g) in groups.into_iter().enumerate() {
+				if gi % nshards != shard {
+					continue;
+				}
+				for c in g {
+					if !f(c, true) {
+						return vec![];
+					}
+				}
+			}
+		}
 		// every history of length <= 2 over a small op alphabet, from buffers of every shape
 		let inits = ["", "s:", "//h", "s://u@h:1/p?q#f", "./a:b", "/.//a", "s:a:b", "s://h", "?q", "#f", "s://", "a/b/../c", "s:/"];
 		let mut alphabet: Vec<Op> = vec![];
@@ -447,7 +486,7 @@ impl Prop for C04 {
 				}
 			}
 		}
-		vec!["13 initial buffers x {reference, full} x every history of length <= 2 over 31 ops (setters incl. removal, one-op path handles, two-op authority handles, resolve)"]
+		vec!["huge arguments / buffers (1 MiB+3 and 2 MiB; thorough: 64 KiB+1 .. 8 MiB+1) through every setter, both handles, normalize and resolve, each followed by a small case on the same thread", "13 initial buffers x {reference, full} x every history of length <= 2 over 31 ops (setters incl. removal, one-op path handles, two-op authority handles, resolve)"]
 	}
 
 	fn floors(_tier: Tier) -> Vec<(&'static str, u64)> {
